@@ -3,6 +3,10 @@ import PyYetiVerif.Lemmas.CoordSph
 import PyYetiVerif.Lemmas.CoordRbe3
 import PyYetiVerif.Lemmas.CoordRbe3Um
 import PyYetiVerif.Lemmas.CoordChain
+import PyYetiVerif.Lemmas.CoordBuild
+import PyYetiVerif.Lemmas.CoordRbe3Wrap
+import PyYetiVerif.Lemmas.CoordAxis
+import PyYetiVerif.Lemmas.CoordReal
 /-!
 # C14 — coordinate systems and rigid-body geometry are mutually consistent
 
@@ -43,6 +47,19 @@ pyyeti/nastran/n2p.py by the correspondence check.  Round-off is outside these s
 * `chain_order_irrelevant`, `chain_circular_refused`, `chain_resolved`: `build_coords` does not depend on
   the order of the cards, refuses reference cycles / undefined references, and every entry of its
   dictionary is the A-B-C construction of its card relative to the entry of the card's reference.
+* `build_coords_resolves_iff`, `build_coords_unresolved_error`, `build_coords_levels_are_depths`,
+  `build_coords_order_is_topological`, `build_coords_independent_of_card_order`, `build_coords_duplicates`:
+  `build_coords` as a whole (id sort, duplicate handling, the level loop with `ref_ids` = the systems resolved in
+  the last pass, `argsort` by level, `mkusetcoordinfo` in that order): it returns a dictionary iff cards with the
+  same id are equal and every reference chain ends in 0; otherwise the error is the one named; the level of a card
+  is the length of its reference chain; every card is processed after the card of its reference system, for any
+  ids and any depth; the result depends only on the set of cards.
+* `formrbe3_is_rbe3Grid_on_sorted_lists`, `formrbe3_row_order`, `formrbe3_group_order`, `formrbe3_um_order`,
+  `formrbe3_weights_scale_invariant`, `formrbe3_rigid_body_exact`: the list-level packaging of `formrbe3`
+  (`Ind_List` / `UM_List` expansion, look-up of uset rows, sorting into uset order, partition of the table).
+* `cyl_roundtrip_everywhere`, `sph_roundtrip_everywhere`, `cyl_axis_convention`, `sph_axis_convention`,
+  `chain_consistent_point_everywhere`, `rb_axis_convention`: the polar axis; `rbgeom_uset_axis_angles_exact`:
+  azimuths of exactly 0 / 90 / 180 / 270 degrees.
 -/
 namespace PyYetiVerif.C14
 open PyYetiVerif.Coord
@@ -483,5 +500,305 @@ theorem chain_resolved {cards : List (Card (CsBody ℝ))} {d : CoordRef ℝ} (hn
     (∀ x v, d.lookup x = some v → (x = 0 ∧ v = basic) ∨
       ∃ c ∈ cards, c.cid = x ∧ ∃ r, d.lookup c.ref = some r ∧ v = cardInfo r c) :=
   buildCoords_resolved (fun _ _ h => of_decide_eq_true h) hne h
+
+/-! ## `build_coords` as a whole -/
+
+/-- **`build_coords` returns a dictionary iff the cards are well founded**: (positive ids) cards with the same id
+are equal, and the reference chain of every card ends in 0 — the reference graph restricted to the cards is a
+forest rooted in the basic system -/
+theorem build_coords_resolves_iff (cards : List (Card (CsBody ℝ))) (hpos : ∀ c ∈ cards, c.cid ≠ 0) :
+    (∃ d, buildCoords cards = .ok d) ↔ NoConflict cards ∧ ∀ c ∈ cards, Rooted cards c.cid :=
+  buildCoords_ok_iff real_beqSound real_beqRefl cards hpos
+
+/-- … otherwise it raises: unequal duplicates → "duplicate but unequal …" (`chain_dup_unequal_refused`); a chain
+that does not end in 0 → `RuntimeError("Could not resolve coordinate systems. Need these coordinate cards: …")`,
+and the ids printed are `ref_ids`, the ids of the deepest level that *did* resolve (`[0]` when none did), not the
+ids that are missing -/
+theorem build_coords_unresolved_error (cards : List (Card (CsBody ℝ))) (hpos : ∀ c ∈ cards, c.cid ≠ 0)
+    (hnc : NoConflict cards) (hex : ∃ c ∈ cards, ¬ Rooted cards c.cid) :
+    ∃ k f, buildCoords cards = .error (.unresolved f) ∧ (∀ x, x ∈ f ↔ RootedAt cards k x) ∧
+      ∀ y, ¬ RootedAt cards (k + 1) y :=
+  buildCoords_unresolved real_beqSound real_beqRefl cards hpos hnc hex
+
+/-- `selected[pv] = loop`: when the loop ends every card has been selected exactly with the length of its
+reference chain (and the cards are those given, once each, in id order) -/
+theorem build_coords_levels_are_depths (cards : List (Card (CsBody ℝ))) (hpos : ∀ c ∈ cards, c.cid ≠ 0)
+    {r : List (Card (CsBody ℝ) × Nat)} (h : buildLevels cards = .ok r) :
+    (∀ c, c ∈ r.map (·.1) ↔ c ∈ cards) ∧ (r.map (·.1)).Pairwise (fun a b => a.cid < b.cid) ∧
+      ∀ p ∈ r, p.2 ≠ 0 ∧ RootedAt cards p.2 p.1.cid := by
+  have hnc : NoConflict cards := by
+    by_contra hcon
+    obtain ⟨x, hx⟩ := buildLevels_refuses_conflict (csBody_beqSound real_beqSound) cards hcon
+    rw [hx] at h; cases h
+  rcases buildLevels_spec (csBody_beqSound real_beqSound) (csBody_beqRefl real_beqRefl) cards hpos hnc with
+    ⟨r', h1, h2, h3, h4⟩ | ⟨k', f', h1, _⟩
+  · rw [h1] at h; cases h; exact ⟨h2, h3, h4⟩
+  · rw [h1] at h; cases h
+
+/-- **the order in which the cards are resolved is topological**: `np.argsort(selected)` hands every card to
+`mkusetcoordinfo` after the card that defines its reference system — for any ids (increasing, decreasing or mixed
+along a chain) and any depth -/
+theorem build_coords_order_is_topological {cards order : List (Card (CsBody ℝ))}
+    (hpos : ∀ c ∈ cards, c.cid ≠ 0) (h : buildOrder cards = .ok order) :
+    ∀ pre c suf, order = pre ++ c :: suf → c.ref = 0 ∨ ∃ c' ∈ pre, c'.cid = c.ref :=
+  buildOrder_topological (csBody_beqSound real_beqSound) (csBody_beqRefl real_beqRefl) hpos h
+
+/-- a chain three deep whose ids decrease along the chain (10 → 20 → 30 → basic): resolved 30, 20, 10 -/
+example : (match buildOrder [(⟨10, 20, ()⟩ : Card Unit), ⟨20, 30, ()⟩, ⟨30, 0, ()⟩] with
+    | .ok l => l.map (·.cid) | .error _ => []) = [30, 20, 10] := by
+  have hs : sortCards [(⟨10, 20, ()⟩ : Card Unit), ⟨20, 30, ()⟩, ⟨30, 0, ()⟩]
+      = [⟨10, 20, ()⟩, ⟨20, 30, ()⟩, ⟨30, 0, ()⟩] := by
+    simp [sortCards, List.mergeSort, List.MergeSort.Internal.splitInTwo]
+  simp only [buildOrder, buildLevels, hs]
+  decide +kernel
+
+/-- … four deep with mixed ids, cards given in a scrambled order, one equal duplicate: (id, level) -/
+example : (match buildLevels [(⟨7, 40, ()⟩ : Card Unit), ⟨40, 3, ()⟩, ⟨3, 99, ()⟩, ⟨99, 0, ()⟩, ⟨5, 0, ()⟩,
+      ⟨40, 3, ()⟩] with
+    | .ok l => l.map (fun p => (p.1.cid, p.2)) | .error _ => [])
+    = [(3, 2), (5, 1), (7, 4), (40, 3), (99, 1)] := by
+  have hs : sortCards [(⟨7, 40, ()⟩ : Card Unit), ⟨40, 3, ()⟩, ⟨3, 99, ()⟩, ⟨99, 0, ()⟩, ⟨5, 0, ()⟩, ⟨40, 3, ()⟩]
+      = [⟨3, 99, ()⟩, ⟨5, 0, ()⟩, ⟨7, 40, ()⟩, ⟨40, 3, ()⟩, ⟨40, 3, ()⟩, ⟨99, 0, ()⟩] := by
+    simp [sortCards, List.mergeSort, List.MergeSort.Internal.splitInTwo]
+  simp only [buildLevels, hs]
+  decide +kernel
+
+/-- **the result does not depend on the order of the cards — for every input**: the same dictionary, or the same
+error with the same payload (no hypothesis: unequal duplicates, cycles, missing references included) -/
+theorem build_coords_independent_of_card_order {l₁ l₂ : List (Card (CsBody ℝ))} (hp : l₁.Perm l₂) :
+    buildCoords l₁ = buildCoords l₂ :=
+  buildCoords_eq_of_perm_all real_beqSound real_beqRefl hp
+
+/-- the id reported with "duplicate but unequal coordinate systems detected. cid = …" is the *smallest* id that
+two different cards share -/
+theorem build_coords_dup_error_cid {cards : List (Card (CsBody ℝ))} {c : Nat}
+    (h : buildCoords cards = .error (.dupUnequal c)) :
+    (∃ a ∈ cards, ∃ b ∈ cards, a.cid = c ∧ b.cid = c ∧ a ≠ b) ∧
+    (∀ a ∈ cards, ∀ b ∈ cards, a.cid = b.cid → a.cid < c → a = b) := by
+  apply buildLevels_conflict_cid (csBody_beqSound real_beqSound) (csBody_beqRefl real_beqRefl)
+  unfold buildCoords at h
+  split at h
+  · cases h
+  · simp only [buildOrder, bind, Except.bind, Except.map] at h
+    cases hb : buildLevels cards with
+    | error e =>
+      rw [hb] at h
+      simp only [Except.error.injEq] at h
+      rw [h]
+    | ok r =>
+      exfalso
+      rw [hb] at h
+      simp only [] at h
+      -- `mkusetcoordinfo` never reports a duplicate
+      have : ∀ (o : List (Card (CsBody ℝ))) (d : CoordRef ℝ), addCards d o ≠ .error (.dupUnequal c) := by
+        intro o
+        induction o with
+        | nil => intro d h; simp [addCards, pure, Except.pure] at h
+        | cons x t ih =>
+          intro d h
+          simp only [addCards, List.foldlM_cons, bind, Except.bind] at h
+          cases hx : addCard d x with
+          | error e =>
+            rw [hx] at h
+            unfold addCard at hx
+            split at hx
+            · cases hx
+            · split at hx
+              · simp only [Except.error.injEq] at hx h
+                rw [← hx] at h
+                cases h
+              · cases hx
+          | ok d' =>
+            rw [hx] at h
+            exact ih d' h
+      exact this _ _ h
+
+/-- **duplicates**: the result depends only on the *set* of cards — any number of equal copies of a card, in any
+positions, changes nothing (unequal copies are refused: `chain_dup_unequal_refused`) -/
+theorem build_coords_duplicates {l₁ l₂ : List (Card (CsBody ℝ))} (hm : ∀ c, c ∈ l₁ ↔ c ∈ l₂)
+    (hc : NoConflict l₁) : buildCoords l₁ = buildCoords l₂ :=
+  buildCoords_eq_of_mem_iff real_beqSound real_beqRefl hm hc
+
+example (c : Card (CsBody ℝ)) (cards : List (Card (CsBody ℝ))) (hc : c ∈ cards) (hn : NoConflict cards) :
+    buildCoords (c :: cards) = buildCoords cards := by
+  refine (build_coords_duplicates (fun x => ?_) hn).symm
+  simp only [List.mem_cons]
+  constructor
+  · exact Or.inr
+  · intro h
+    rcases h with h | h
+    · rw [h]; exact hc
+    · exact h
+
+example (b : CsBody ℝ) : NoConflict [(⟨10, 20, b⟩ : Card (CsBody ℝ)), ⟨20, 30, b⟩, ⟨30, 0, b⟩] ∧
+    ∀ c ∈ [(⟨10, 20, b⟩ : Card (CsBody ℝ)), ⟨20, 30, b⟩, ⟨30, 0, b⟩],
+      Rooted [(⟨10, 20, b⟩ : Card (CsBody ℝ)), ⟨20, 30, b⟩, ⟨30, 0, b⟩] c.cid := by
+  have r30 : RootedAt [(⟨10, 20, b⟩ : Card (CsBody ℝ)), ⟨20, 30, b⟩, ⟨30, 0, b⟩] 1 30 :=
+    .step ⟨30, 0, b⟩ (by simp) rfl .zero
+  have r20 : RootedAt [(⟨10, 20, b⟩ : Card (CsBody ℝ)), ⟨20, 30, b⟩, ⟨30, 0, b⟩] 2 20 :=
+    .step ⟨20, 30, b⟩ (by simp) rfl r30
+  have r10 : RootedAt [(⟨10, 20, b⟩ : Card (CsBody ℝ)), ⟨20, 30, b⟩, ⟨30, 0, b⟩] 3 10 :=
+    .step ⟨10, 20, b⟩ (by simp) rfl r20
+  constructor
+  · intro x hx y hy hxy
+    simp only [List.mem_cons, List.mem_nil_iff, or_false] at hx hy
+    rcases hx with rfl | rfl | rfl <;> rcases hy with rfl | rfl | rfl <;> simp_all
+  · intro c hc
+    simp only [List.mem_cons, List.mem_nil_iff, or_false] at hc
+    rcases hc with rfl | rfl | rfl
+    · exact ⟨3, r10⟩
+    · exact ⟨2, r20⟩
+    · exact ⟨1, r30⟩
+
+/-! ## the list-level packaging of `formrbe3` -/
+
+/-- **`formrbe3` (no `UM_List`) is `rbe3Grid` on the sorted lists**: if the packaging succeeds (`packRbe3`:
+`DOF_dep` / `Ind_List` expanded, the dependent grid found, every independent DOF that is a row of the table
+looked up) the result is the matrix of `rbe3Grid` (the subject of `rbe3_reproduces_rb`) whose rows follow the
+digits of `DOF_dep` (`(d + 5) % 6` = Python's `[d - 1]`) and whose columns are the independent DOF sorted into
+strictly increasing uset rows — the list `Ind_List` names, reduced to rows of the table, sorted -/
+theorem formrbe3_is_rbe3Grid_on_sorted_lists (solve : Solver ℝ) {u : UsetTab ℝ} {gdep dofdep : Nat}
+    {il : List (IndGroup ℝ)} {p : Rbe3Packed ℝ} (hp : packRbe3 u gdep dofdep il none = some p)
+    (hni : 0 < p.inds.length) :
+    (p.inds.Pairwise fun a b => a.1 < b.1) ∧
+    (∃ a, indRowsOf u il = some a ∧
+      p.inds = (sortByRow a (usetDof u).length).map fun e => (e.1, e.2.2)) ∧
+    formrbe3W solve u gdep dofdep il none
+      = some (rbe3Grid solve p.grids p.dep
+          (fun i : Fin p.ddofs.length => (⟨p.ddofs[i] % 6, Nat.mod_lt _ (by decide)⟩ : Fin 6))
+          (fun k : Fin p.inds.length => (p.inds[k]).2)).mx.toLists :=
+  formrbe3W_none_eq solve hp hni
+
+/-- … and with distinct independent DOF the sorted list is a permutation of the named one (nothing is lost,
+nothing is doubled, every weight stays with its DOF) -/
+theorem formrbe3_sorted_is_perm {u : UsetTab ℝ} {il : List (IndGroup ℝ)} {a : List (Nat × Nat × IndDof ℝ)}
+    (h : indRowsOf u il = some a) (hnd : (a.map (·.1)).Nodup) :
+    (sortByRow a (usetDof u).length).Perm a :=
+  sortByRow_perm hnd (indRowsOf_lt h)
+
+/-- **row and column order do not depend on the order of the lists**: two `Ind_List`s that name the same
+independent DOF with the same weights in any two orders (groups reordered, ids reordered, groups split or
+merged) give the same result, with or without a `UM_List`: the columns follow the uset rows -/
+theorem formrbe3_row_order (solve : Solver ℝ) {u : UsetTab ℝ} {gdep dofdep : Nat} {il₁ il₂ : List (IndGroup ℝ)}
+    {um : Option (List (Nat × Nat))} {a b : List (Nat × Nat × IndDof ℝ)}
+    (h₁ : indRowsOf u il₁ = some a) (h₂ : indRowsOf u il₂ = some b) (hp : a.Perm b)
+    (hnd : (a.map (·.1)).Nodup) :
+    formrbe3W solve u gdep dofdep il₁ um = formrbe3W solve u gdep dofdep il₂ um := by
+  unfold formrbe3W
+  rw [packRbe3_eq_of_perm h₁ h₂ hp hnd]
+
+/-- in particular the `DOF_Ind, GRIDS_Ind` pairs of `Ind_List` may be given in any order -/
+theorem formrbe3_group_order (solve : Solver ℝ) {u : UsetTab ℝ} {gdep dofdep : Nat} {il₁ il₂ : List (IndGroup ℝ)}
+    {um : Option (List (Nat × Nat))} {a : List (Nat × Nat × IndDof ℝ)} (hperm : il₁.Perm il₂)
+    (h₁ : indRowsOf u il₁ = some a) (hnd : (a.map (·.1)).Nodup) :
+    formrbe3W solve u gdep dofdep il₁ um = formrbe3W solve u gdep dofdep il₂ um := by
+  obtain ⟨b, h₂, hp⟩ := indRowsOf_perm hperm h₁
+  exact formrbe3_row_order solve h₁ h₂ hp hnd
+
+/-- … and the `GRID_MSET, DOF_MSET` pairs of `UM_List` too (the rows follow the uset rows of the m-set) -/
+theorem formrbe3_um_order (solve : Solver ℝ) (u : UsetTab ℝ) (gdep dofdep : Nat) (il : List (IndGroup ℝ))
+    (l₁ l₂ : List (Nat × Nat)) {m₁ m₂ : List (Nat × Nat)} (h₁ : expandDof l₁ = some m₁)
+    (h₂ : expandDof l₂ = some m₂) (hp : m₁.Perm m₂) :
+    formrbe3W solve u gdep dofdep il (some l₁) = formrbe3W solve u gdep dofdep il (some l₂) :=
+  formrbe3W_um_order solve u gdep dofdep il l₁ l₂ h₁ h₂ hp
+
+/-- **a common factor on all weights changes nothing** (`c > 0`; positive weights, independent rows of full
+column rank, exact solver; with or without a `UM_List`) -/
+theorem formrbe3_weights_scale_invariant (solve : Solver ℝ) (hs : ExactSolve solve) (u : UsetTab ℝ)
+    (gdep dofdep : Nat) (il : List (IndGroup ℝ)) (um : Option (List (Nat × Nat))) (c : ℝ) (hc : 0 < c)
+    {p : Rbe3Packed ℝ} (hp : packRbe3 u gdep dofdep il um = some p)
+    (hw : ∀ k : Fin p.inds.length, 0 < (p.inds[k]).2.w)
+    (hrank : Function.Injective (toM (indRows (fun k : Fin p.inds.length => (p.inds[k]).2) p.dep.p)).mulVec) :
+    formrbe3W solve u gdep dofdep (il.map (scaleGroup c)) um = formrbe3W solve u gdep dofdep il um :=
+  formrbe3W_scale solve hs u gdep dofdep il um c hc.ne' hp hw hrank
+
+/-- **`formrbe3` reproduces rigid-body motion exactly**: the returned matrix times the `rbgeom_uset` rows of the
+(sorted) independent DOF, relative to any point, is the `rbgeom_uset` rows of the dependent DOF — when the
+independent rows have full column rank (the independent set is statically determinate or over-determined) and
+the weights are positive -/
+theorem formrbe3_rigid_body_exact (solve : Solver ℝ) (hs : ExactSolve solve) {u : UsetTab ℝ}
+    {gdep dofdep : Nat} {il : List (IndGroup ℝ)} {p : Rbe3Packed ℝ}
+    (hp : packRbe3 u gdep dofdep il none = some p) (hni : 0 < p.inds.length)
+    (hw : ∀ k : Fin p.inds.length, 0 < (p.inds[k]).2.w)
+    (hrank : Function.Injective (toM (indRows (fun k : Fin p.inds.length => (p.inds[k]).2) p.dep.p)).mulVec)
+    (ref : V3 ℝ) :
+    ∃ R : Mx ℝ p.ddofs.length p.inds.length,
+      formrbe3W solve u gdep dofdep il none = some R.toLists ∧
+      toM R * toM (indRows (fun k : Fin p.inds.length => (p.inds[k]).2) ref)
+        = toM ((gridRowsMx p.dep ref).selRows
+            fun i : Fin p.ddofs.length => (⟨p.ddofs[i] % 6, Nat.mod_lt _ (by decide)⟩ : Fin 6)) :=
+  ⟨_, (formrbe3W_none_eq solve hp hni).2.2,
+    rbe3Grid_mul_indRows solve hs p.grids p.dep _ _ hw hrank ref⟩
+
+/-- the packaging on a small table (grid 5, scalar point 7, grids 9 and 3): `Ind_List = [12, [9, 5], [3, 2.], 3]`,
+dependent `(3, 31)`: columns in uset order — grid 5 components 1, 2 (rows 0, 1), grid 9 components 1, 2 (rows 7,
+8), grid 3 component 3 (row 15) —, dependent rows 2, 0 (digits 3, 1) with uset rows 15, 13 -/
+example :
+    (packRbe3 [(5, some exGrid), (7, none), (9, some exGrid), (3, some exGrid)] 3 31
+        [⟨12, none, [9, 5]⟩, ⟨3, some 2, [3]⟩] none).map
+      (fun p => (p.inds.map (·.1), p.inds.map (·.2.dof.val), p.ddofs, p.dkeys, p.nuset))
+    = some ([0, 1, 7, 8, 15], [0, 1, 0, 1, 2], [2, 0], [15, 13], 19) := by
+  decide +kernel
+
+/-! ## the polar axis, and azimuths of exactly 0 / 90 / 180 / 270 degrees -/
+
+/-- forward ∘ inverse is the identity at *every* point of a cylindrical system, the axis included -/
+theorem cyl_roundtrip_everywhere (g : V3 ℝ) : toRect .cyl (fromRect .cyl g) = g := cyl_fwd_inv_all g
+
+/-- … and of a spherical system, the polar axis and the origin included -/
+theorem sph_roundtrip_everywhere (g : V3 ℝ) : toRect .sph (fromRect .sph g) = g := sph_fwd_inv_all g
+
+/-- **what `getcoordinates` returns on the axis of a cylindrical system**: `(0, 0, z)` — `θ = atan2(0, 0) = 0` —
+so a location entered as `(0, θ, z)` comes back as `(0, 0, z)`: the same point, the azimuth normalised to 0 -/
+theorem cyl_axis_convention (θ z : ℝ) :
+    fromRect .cyl (⟨0, 0, z⟩ : V3 ℝ) = ⟨0, 0, z⟩ ∧
+    fromRect .cyl (toRect .cyl (⟨0, θ, z⟩ : V3 ℝ)) = ⟨0, 0, z⟩ ∧
+    toRect .cyl (fromRect .cyl (toRect .cyl (⟨0, θ, z⟩ : V3 ℝ))) = toRect .cyl ⟨0, θ, z⟩ :=
+  ⟨cyl_axis z, cyl_axis_inv_fwd θ z, cyl_fwd_inv_all _⟩
+
+/-- … on the polar axis of a spherical system: `(|z|, 0 or 180, 0)` -/
+theorem sph_axis_convention (z : ℝ) :
+    fromRect .sph (⟨0, 0, z⟩ : V3 ℝ) = ⟨|z|, if z < 0 then 180 else 0, 0⟩ := sph_axis z
+
+/-- a basic point queried in a system of any type and entered again in that system is the same point — at every
+point, also on the polar axis and at the origin of a cylindrical / spherical system (`chain_consistent_point`
+without its off-axis hypothesis) -/
+theorem chain_consistent_point_everywhere (ci : CoordInfo ℝ) (p : V3 ℝ) (hT : IsFrame ci.T) :
+    locBasic ci (getCoordinates ci p) = p := locBasic_getCoordinates_all ci p hT
+
+/-- `rbgeom_uset` for a grid *on* the polar axis of its output system: the polar fix-up is skipped and the rows
+are expressed in the local frame of azimuth 0 (cylindrical: the system's own axes), resp. of
+`(θ, φ) = (0 | 180°, 0)` (spherical) — the angles `getcoordinates` reports there -/
+theorem rb_axis_convention (co : CoordInfo ℝ) (p ref : V3 ℝ)
+    (hx : (co.T.transpose.mulVec (p.sub co.origin)).x = 0)
+    (hy : (co.T.transpose.mulVec (p.sub co.origin)).y = 0) :
+    (co.typ = .cyl → gridRb co p ref = Rb.lmul ((rotzT (0 : ℝ)).mul co.T.transpose) (rigid (p.sub ref))) ∧
+    (co.typ = .sph → (1 : ℝ) / 10 ^ 8 < |(co.T.transpose.mulVec (p.sub co.origin)).z| →
+      gridRb co p ref = Rb.lmul
+        ((sphT (if (co.T.transpose.mulVec (p.sub co.origin)).z < 0 then Real.pi else 0)).mul co.T.transpose)
+        (rigid (p.sub ref))) :=
+  ⟨fun h => (gridRb_cyl_axis co p ref h hx hy).2, fun h hz => gridRb_sph_axis co p ref h hx hy hz⟩
+
+/-- **exact values at azimuths of 0 / 90 / 180 / 270 degrees**: for a grid whose position in its cylindrical
+output system lies on the `k`-th coordinate half-line of the local `xy`-plane (resp., spherical: on the equator
+at that azimuth) the `rbgeom_uset` rows are `(Q_k · Tᵀ) · [I, -(p - ref)×; 0, I]` with `Q_k` a matrix of entries
+0, ±1 — a rational expression of `T`, `p`, `ref` (exactly rational for rational data) -/
+theorem rbgeom_uset_axis_angles_exact (co : CoordInfo ℝ) (p ref : V3 ℝ) (k : Fin 4)
+    (hray : OnRay (co.T.transpose.mulVec (p.sub co.origin)).x (co.T.transpose.mulVec (p.sub co.origin)).y k)
+    (hfix : (1 : ℝ) / 10 ^ 8 < |(co.T.transpose.mulVec (p.sub co.origin)).y|
+      + |(co.T.transpose.mulVec (p.sub co.origin)).x|) :
+    (co.typ = .cyl → gridRb co p ref = Rb.lmul ((quarterRot k).mul co.T.transpose) (rigid (p.sub ref))) ∧
+    (co.typ = .sph → (co.T.transpose.mulVec (p.sub co.origin)).z = 0 →
+      gridRb co p ref = Rb.lmul ((quarterSph k).mul co.T.transpose) (rigid (p.sub ref))) :=
+  ⟨fun h => gridRb_cyl_on_ray co p ref h k hray hfix, fun h hz => gridRb_sph_on_ray co p ref h k hray hz hfix⟩
+
+/-- a grid at `θ = 180°` of a cylindrical system (the input family of a recorded seeded change): rows
+`diag(-1, -1, 1) · Tᵀ · …` -/
+example (ref : V3 ℝ) :
+    gridRb (⟨.cyl, V3.zero, M3.one⟩ : CoordInfo ℝ) ⟨-2, 0, 5⟩ ref
+      = Rb.lmul ((quarterRot 2).mul (M3.one : M3 ℝ).transpose) (rigid ((⟨-2, 0, 5⟩ : V3 ℝ).sub ref)) := by
+  refine (rbgeom_uset_axis_angles_exact _ _ _ 2 ?_ ?_).1 rfl
+  · simp only [OnRay]; coord_simp; norm_num
+  · coord_simp; norm_num
 
 end PyYetiVerif.C14
